@@ -113,7 +113,7 @@ def make_loop_spec(prop_list):
         it.path.ghost["now"] = g["now"]
         it.path.assume(g["now"] >= old["now"])
 
-    return LoopSpec(loop_inv, setup=setup, modifies=modifies, havoc=havoc, prop="C01")
+    return LoopSpec(loop_inv, setup=setup, modifies=modifies, havoc=havoc, prop=None)
 
 
 def at_continue(it):
@@ -420,7 +420,7 @@ def t_runner(it, runner, split=None):
 def mk(runner):
     key = RUNNERS[runner][0]
     t = Task(f"runner.{runner}", lambda it: t_runner(it, runner),
-             ["C01", "C02", "C03", "C04", "C05", "C11", "C13", "C14", "C15", "C16", "C10", "C12"], [key])
+             ["C01", "C02", "C03", "C04", "C05", "C10", "C11", "C12", "C13", "C14", "C15", "C16"], [key])
     t.weight = 20
     t.split_depth = 9
     t.split_chunks = 32
